@@ -122,7 +122,7 @@ def _parse_ttl(field: str) -> Tuple[int, bool]:
 
     elif "+" in field:
         raw_ttl, _, raw_dist = field.partition("+")
-        dist = int(raw_dist)
+        dist = parse_number_in_range(raw_dist, min=0, max=255)
 
     ttl = parse_number_in_range(raw_ttl, min=1, max=255) + dist
 
